@@ -52,7 +52,8 @@ def grid_class(method, env, locs, pks, N):
 
 def gen(args):
     emd = core.import_emd()
-    seqs, do_env = args
+    seqs, do_env = args[:2]
+    modes = args[2] if len(args) > 2 else MODES
     recs = []
     gpe = emd.sift.get_padded_extrema
     ie = emd.sift.interp_envelope
@@ -65,7 +66,7 @@ def gen(args):
         N = len(x)
         for pw in range(0, 6):
             for parab in (0, 1):
-                for mode in MODES:
+                for mode in modes:
                     mm = 'reflect' if (si + pw + parab) % 4 == 0 else 'edge'
                     kw = {'mag_pad_opts': user_mag} if mm == 'reflect' else {}
                     o = core.guarded(gpe, x, pad_width=pw, mode=mode, parabolic_extrema=bool(parab), **kw)
@@ -207,6 +208,11 @@ def run():
         rest = [s for s in part if len(s) > Lenv]
         if rest:
             jobs.append((rest, False))
+    # |x| over three levels only has the symmetric peaks (0,1,0), which parabolic refinement leaves where they are: the
+    # rectified mode is therefore also run on a FIVE-level alphabet (|x| in {0,1,2}: vertices still exact in 1/24, 1/96)
+    five = [s5 for n in range(3, ctx.pick(5, 6) + 1) for s5 in itertools.product((-2, -1, 0, 1, 2), repeat=n)]
+    for i in range(0, len(five), 200):
+        jobs.append((five[i:i + 200], False, ('abs_peaks',)))
     bad = []
     nrec = {'pad': 0, 'env': 0}
     with mp.Pool(core.NCPU) as pool:
